@@ -15,6 +15,7 @@ TRUSTED_BASE = [
     "extraction (ExtrOcamlBasic) + ocaml/driver.ml; Rust harness (budgeted sink = I/O error after n bytes)",
 ]
 ASSUMPTIONS = [
+    "probes whose Serialize impl advertises a wrong sequence length (lying_length_histories) are judged like every probe: outcome and bytes on the used configuration = those on a fresh one (crate vs crate), and model vs crate on every call (SerHistory)",
     "Vec capacity behaviour is abstracted to a 'capacity > 0' flag per buffer (it decides whether a buffer returns to the pool, never what is written)",
 ]
 
@@ -81,6 +82,58 @@ def directed_histories():
             out.append(("hist %s 1 (job %s %s) (job %s none)" % (sch, fsv, fb, psv), (sch, 1, psv, [fk])))
             for fk2, fsv2, fb2 in failures[::3]:
                 out.append(("hist %s 1 (job %s %s) (job %s %s) (job %s none)" % (sch, fsv, fb, fsv2, fb2, psv), (sch, 1, psv, [fk, fk2])))
+    return out
+
+def lying_length_histories():
+    """probes whose Serialize impl ADVERTISES a sequence length different from the number of elements it yields
+    (serialize_seq(Some(n)) then fewer / more elements, also n = 0 and no elements at all) for `bytes` and `fixed` targets
+    under allow_slow_sequence_to_bytes, at the root and as record fields (in order / presented before their turn), after
+    every kind of history that leaves buffers in the configuration's pool (out-of-order record fields, sequences of unknown
+    length buffered as bytes, the same failing half-way or hitting a sink error) or leaves it empty (in-order values, known-length
+    sequences): outcome and bytes must be those of a fresh configuration"""
+    N = G.Node
+    hx = C.hx
+    nodes = [N("record", name="R", fields=[("a", 1), ("d", 2), ("e", 3)]), N("int"), N("bytes"), N("fixed", name="F", size=3)]
+    sch = G.schema_sx(nodes)
+    def st(*fs):
+        return "(struct %s %d%s)" % (hx("R"), len(fs), "".join(" (%s %s)" % (hx(f), v) for f, v in fs))
+    def seq(adv, n):
+        return "(seq %s%s)" % (adv, "".join(" (u8 %d)" % (i + 1) for i in range(n)))
+    a, d, e = "(i32 1)", "(bytes x0102)", "(bytes x010203)"
+    jobs = [
+        ("in-order", st(("a", a), ("d", d), ("e", e)), "none"),
+        ("known-length-seqs", st(("a", a), ("d", seq(2, 2)), ("e", seq(3, 3))), "none"),
+        ("reordered", st(("e", e), ("d", d), ("a", a)), "none"),
+        ("reordered-map", "(map none (entry (str %s) %s) (entry (str %s) %s) (entry (str %s) %s))" % (hx("d"), d, hx("a"), a, hx("e"), e), "none"),
+        ("unknown-length-seq-to-bytes", st(("a", a), ("d", seq("none", 3)), ("e", e)), "none"),
+        ("unknown-length-seq-to-fixed", st(("a", a), ("d", d), ("e", seq("none", 3))), "none"),
+        ("reordered-fails-late", st(("e", e), ("d", d), ("a", "fail")), "none"),
+        ("unknown-length-seq-fails-late", st(("a", a), ("d", "(seq none (u8 1) (u8 2) fail)"), ("e", e)), "none"),
+        ("reordered-missing", st(("e", e), ("d", d)), "none"),
+        ("reordered-sink-fails", st(("e", e), ("d", d), ("a", a)), "2"),
+        ("unknown-length-seq-sink-fails", st(("a", a), ("d", seq("none", 3)), ("e", e)), "2"),
+    ]
+    probes = []
+    for adv, n in [(3, 2), (3, 4), (0, 1), (2, 0), (1, 0), (3, 3), (5, 1), (1, 5), (0, 0)]:
+        tag = "advertised-%d-yields-%d" % (adv, n)
+        probes.append(("bytes-field/" + tag, st(("a", a), ("d", seq(adv, n)), ("e", e))))
+        probes.append(("bytes-field-before-its-turn/" + tag, st(("d", seq(adv, n)), ("e", e), ("a", a))))
+        probes.append(("fixed-field/" + tag, st(("a", a), ("d", d), ("e", seq(adv, n)))))
+        probes.append(("fixed-field-before-its-turn/" + tag, st(("e", seq(adv, n)), ("a", a), ("d", d))))
+        probes.append(("both/" + tag, st(("a", a), ("d", seq(adv, n)), ("e", seq(adv, n)))))
+    out = []
+    for pk, psv in probes:
+        for i, (jk, jsv, jb) in enumerate(jobs):
+            out.append(("hist %s 1 (job %s %s) (job %s none)" % (sch, jsv, jb, psv), (sch, 1, psv, ["lying-length/" + jk, pk])))
+        # two jobs: a pooled buffer AND a pooled buffer list
+        out.append(("hist %s 1 (job %s none) (job %s none) (job %s none)" % (sch, jobs[2][1], jobs[4][1], psv), (sch, 1, psv, ["lying-length/reordered+unknown-length-seq", pk])))
+    # at the root
+    for rnodes in ([N("bytes")], [N("fixed", name="F", size=3)]):
+        rs = G.schema_sx(rnodes)
+        for adv, n in [(3, 2), (3, 4), (0, 1), (2, 0), (3, 3)]:
+            psv = seq(adv, n)
+            for jk, jsv in [("unknown-length-seq", seq("none", 3)), ("unknown-length-seq-fails-late", "(seq none (u8 1) fail)"), ("known-length-seq", seq(3, 3)), ("plain", "(bytes x010203)")]:
+                out.append(("hist %s 1 (job %s none) (job %s none)" % (rs, jsv, psv), (rs, 1, psv, ["lying-length/root/" + jk, "root-%s/advertised-%d-yields-%d" % (rnodes[0].kind(), adv, n)])))
     return out
 
 def large_value_histories(rng, tier):
@@ -186,6 +239,8 @@ def run(ctx):
         meta.append((sch, slow, probe, kinds))
     for line, m in directed_histories():
         lines.append(line); meta.append(m)
+    for line, m in lying_length_histories():
+        lines.append(line); meta.append(m)
     nsmall = len(lines)
     for line, m in large_value_histories(rng, ctx["tier"]):
         lines.append(line); meta.append(m)
@@ -230,6 +285,8 @@ def run(ctx):
                     "failing after 0..40 bytes; then a probe, compared with the same probe on a fresh configuration; directed: every kind of half-way failure x "
                     "every kind of probe taking a pooled buffer; LARGE values (4 KB .. 200 KB around 4 KiB / 64 KiB / 128 KiB) in fields presented before their turn "
                     "(string / bytes / sequence-as-bytes / nested record / map form / two buffers at once), the job succeeding (buffer flushed by the in-order "
-                    "loop or at the end), failing late or hitting a sink error far into the value, once or twice, then a probe; model vs crate: every "
+                    "loop or at the end), failing late or hitting a sink error far into the value, once or twice, then a probe; directed: probes whose Serialize impl advertises a sequence length different from the "
+                    "number of elements it yields (serialize_seq(Some(n)) then fewer / more / no elements, n = 0) for bytes and fixed targets (root, record field in order / before its turn) "
+                    "x histories that leave pooled buffers (out-of-order fields, unknown-length sequences buffered as bytes, the same failing late / on a sink error) or none; model vs crate: every "
                     "call's outcome and bytes",
             "samples": samples, "violations": violations, "model_diffs": diffs, "distribution": dict(dist)}
